@@ -223,7 +223,7 @@ def run(ctx, report: Report) -> None:
     from .sem import identity_table
     identity_table(ctx, r5)
 
-    r7 = report.rule('C01-R7', 'a comma resets every piece of per-alternative parser state (parsed token sequences)', floor=2)
+    r7 = report.rule('C01-R7', 'a comma resets every piece of per-alternative parser state (parsed token sequences)', floor=1)
     from .sem import comma_tables
     comma_tables(ctx, r7)
 
